@@ -86,4 +86,5 @@ Proof.
   - intros sd k Hk Hlt. rewrite Hheap in Hlt. lia.
   - intros sd k cs H. destruct sd; discriminate.
   - intros e sd He. simpl in He. unfold getx. destruct e as [|[|e]]; [lia|lia|]. simpl. destruct e, sd; reflexivity.
+  - intros e en sd He Hn. exfalso. destruct e as [|[|e]]; [lia|lia|]. destruct e; discriminate.
 Qed.
